@@ -389,6 +389,11 @@ func (s *sharedEntryAttributes) getAggregatedDeletes(deletes []DeleteEntry, aggr
 			// by adding the key path to the deletes
 			deletes = append(deletes, s)
 		} else {
+			// the elements of cases of the list entries choices that became inactive
+			deletes, err = s.getChoiceCaseDeletes(deletes)
+			if err != nil {
+				return nil, err
+			}
 			// otherwise continue with deletion on the childs.
 			for _, c := range s.childs.GetAll() {
 				deletes, err = c.GetDeletes(deletes, aggregatePaths)
@@ -508,6 +513,36 @@ func (s *sharedEntryAttributes) remainsToExist() bool {
 	return remains
 }
 
+// getChoiceCaseDeletes adds the deletes for child elements (choice cases) that newly became inactive.
+func (s *sharedEntryAttributes) getChoiceCaseDeletes(deletes []DeleteEntry) ([]DeleteEntry, error) {
+	for _, v := range s.choicesResolvers {
+		oldBestCaseName := v.getOldBestCaseName()
+		newBestCaseName := v.getBestCaseName()
+		// so if we have an old and a new best cases (not "") and the names are different,
+		// all the old to the deletion list
+		if oldBestCaseName != "" && newBestCaseName != "" && oldBestCaseName != newBestCaseName {
+			// a case is no node of the data tree, the elements that make up the old case are to be deleted
+			for _, elemName := range v.getOldPopulatedElementNames(oldBestCaseName) {
+				// try fetching the element from the childs
+				oldCaseElemEntry, exists := s.childs.GetEntry(elemName)
+				if exists {
+					deletes = append(deletes, oldCaseElemEntry)
+					continue
+				}
+				// it might be that the child is not loaded into the tree, but just considered from the treecontext cache for the choice/case resolution
+				// if so, we create and return the DeleteEntryImpl struct
+				path, err := s.SdcpbPath()
+				if err != nil {
+					return nil, err
+				}
+				path.Elem = append(path.Elem, &sdcpb.PathElem{Name: elemName})
+				deletes = append(deletes, NewDeleteEntryImpl(path, append(s.Path(), elemName)))
+			}
+		}
+	}
+	return deletes, nil
+}
+
 // getRegularDeletes performs deletion calculation on elements that have a schema attached.
 func (s *sharedEntryAttributes) getRegularDeletes(deletes []DeleteEntry, aggregate bool) ([]DeleteEntry, error) {
 	var err error
@@ -516,31 +551,9 @@ func (s *sharedEntryAttributes) getRegularDeletes(deletes []DeleteEntry, aggrega
 	switch s.schema.GetSchema().(type) {
 	case *sdcpb.SchemaElem_Container:
 
-		// deletes for child elements (choice cases) that newly became inactive.
-		for _, v := range s.choicesResolvers {
-			oldBestCaseName := v.getOldBestCaseName()
-			newBestCaseName := v.getBestCaseName()
-			// so if we have an old and a new best cases (not "") and the names are different,
-			// all the old to the deletion list
-			if oldBestCaseName != "" && newBestCaseName != "" && oldBestCaseName != newBestCaseName {
-				// a case is no node of the data tree, the elements that make up the old case are to be deleted
-				for _, elemName := range v.getOldPopulatedElementNames(oldBestCaseName) {
-					// try fetching the element from the childs
-					oldCaseElemEntry, exists := s.childs.GetEntry(elemName)
-					if exists {
-						deletes = append(deletes, oldCaseElemEntry)
-						continue
-					}
-					// it might be that the child is not loaded into the tree, but just considered from the treecontext cache for the choice/case resolution
-					// if so, we create and return the DeleteEntryImpl struct
-					path, err := s.SdcpbPath()
-					if err != nil {
-						return nil, err
-					}
-					path.Elem = append(path.Elem, &sdcpb.PathElem{Name: elemName})
-					deletes = append(deletes, NewDeleteEntryImpl(path, append(s.Path(), elemName)))
-				}
-			}
+		deletes, err = s.getChoiceCaseDeletes(deletes)
+		if err != nil {
+			return nil, err
 		}
 	}
 
@@ -1227,15 +1240,25 @@ func (s *sharedEntryAttributes) validateMandatoryWithKeys(ctx context.Context, l
 // the choiceCasesResolvers will get the priority values per branch and use these to
 // calculate the active case.
 func (s *sharedEntryAttributes) initChoiceCasesResolvers() {
-	if s.schema == nil {
+	schema := s.schema
+	if schema == nil {
+		// on key levels the schema is the one of the list. The elements of a list entry,
+		// and so the elements of its choices, reside below the last key level.
+		ancestor, level := s.GetFirstAncestorWithSchema()
+		if ancestor == nil || level != len(ancestor.GetSchemaKeys()) {
+			return
+		}
+		schema = ancestor.GetSchema()
+	} else if len(s.GetSchemaKeys()) > 0 {
+		// the childs of a list are the values of its first key, not the elements of its choices
 		return
 	}
 
 	// extract container schema
 	var ci *sdcpb.ChoiceInfo
-	switch s.schema.GetSchema().(type) {
+	switch schema.GetSchema().(type) {
 	case *sdcpb.SchemaElem_Container:
-		ci = s.schema.GetContainer().GetChoiceInfo()
+		ci = schema.GetContainer().GetChoiceInfo()
 	}
 
 	// create a new choiceCasesResolvers struct
@@ -1284,9 +1307,6 @@ func (s *sharedEntryAttributes) FinishInsertionPhase(ctx context.Context) {
 // the choiceResolver is fed with the resulting values and thereby ready to be queried
 // in a later stage (filterActiveChoiceCaseChilds()).
 func (s *sharedEntryAttributes) populateChoiceCaseResolvers(ctx context.Context) {
-	if s.schema == nil {
-		return
-	}
 	// if choice/cases exist, process it
 	for _, choiceResolver := range s.choicesResolvers {
 		for _, elem := range choiceResolver.GetElementNames() {
@@ -1346,10 +1366,6 @@ func (s *sharedEntryAttributes) populateChoiceCaseResolvers(ctx context.Context)
 // a container with a / multiple choices, the list of childs is filtered to only return the
 // cases that have the highest precedence.
 func (s *sharedEntryAttributes) filterActiveChoiceCaseChilds() map[string]Entry {
-	if s.schema == nil {
-		return s.childs.GetAll()
-	}
-
 	skipAttributesList := s.choicesResolvers.GetSkipElements()
 	// if there are no items that should be skipped, take a shortcut
 	// and simply return all childs straight away
